@@ -2,6 +2,7 @@ package main
 
 import (
 	"bufio"
+	"bytes"
 	"encoding/json"
 	"flag"
 	"fmt"
@@ -304,6 +305,10 @@ func cmdC07(args []string) {
 							ol := fmt.Sprintf("open %s %d", f[1], pt.fid)
 							emit(ol, w.Exec(ol))
 						}
+					case "get", "geti", "min", "max", "visit", "totals", "len", "iter":
+						// "once the file works again all later operations behave as if the failed
+						// call had never been made": the first such operation is the same call again
+						emit(l, w.Exec(l))
 					case "copy":
 						rl := "rmfile " + f[3] // whatever a failed CopyTo left in its destination is discarded
 						emit(rl, w.Exec(rl))
@@ -406,6 +411,60 @@ func openSnapshotsOf(lines []string, sid string) []string {
 	return res
 }
 
+// ---- C08: revert boundary sweep ----
+// The most recent Flush appends a number of bytes that crosses every power of two from 512 to
+// 8192 (every size in [2^k-56, 2^k+24]); FlushRevert must land on the flush before it, and once
+// more on the one before that.  (A backward scan that works in blocks has its off-by-a-few errors
+// exactly there; the junk-tail sweep of the crash stream is the same idea for re-opening.)
+func cmdC08Sweep(args []string) {
+	fs := flag.NewFlagSet("c08s", flag.ExitOnError)
+	fs.Int64("seed", 1, "unused")
+	tier := fs.String("tier", "quick", "tier")
+	dir := fs.String("dir", ".", "output directory")
+	fs.Int("n", 0, "unused")
+	fs.Parse(args)
+	base := func(l int) []string {
+		return []string{"reset", "cfg 0", "open 1 1", "setcoll 1 h61",
+			"set 1 h61 h6b30 h7630 5", "flush 1",
+			"set 1 h61 h6b31 h7631 6", "flush 1",
+			fmt.Sprintf("set 1 h61 h6b32 %s 7", hx(bytes.Repeat([]byte{'v'}, l))), "flush 1"}
+	}
+	// overhead of the last flush beyond the value bytes, measured on the real package
+	size := func(l int) int {
+		w := newWorld()
+		for _, ln := range base(l) {
+			w.Exec(ln)
+		}
+		return len(w.files[1].Data)
+	}
+	sizeBefore := func() int {
+		w := newWorld()
+		for _, ln := range base(0)[:8] {
+			w.Exec(ln)
+		}
+		return len(w.files[1].Data)
+	}()
+	overhead := size(0) - sizeBefore
+	var hist [][]string
+	step := 1
+	if *tier != "thorough" {
+		step = 1
+	}
+	for e := 9; e <= 13; e++ {
+		for target := (1 << e) - 56; target <= (1<<e)+24; target += step {
+			l := target - overhead
+			if l < 0 {
+				continue
+			}
+			h := base(l)
+			h = append(h, "revert 1", "names 1", "dump 1", "opendump 1", "revert 1", "dump 1", "opendump 1",
+				"set 1 h61 h6b33 h7633 8", "flush 1", "opendump 1")
+			hist = append(hist, h)
+		}
+	}
+	runLines(*dir, hist)
+}
+
 func extraCommand(name string, args []string) bool {
 	switch name {
 	case "c07":
@@ -416,6 +475,9 @@ func extraCommand(name string, args []string) bool {
 		return true
 	case "c05s":
 		cmdC05Stress(args)
+		return true
+	case "c08s":
+		cmdC08Sweep(args)
 		return true
 	case "c13":
 		cmdC13(args)
